@@ -128,7 +128,7 @@ type compiler struct {
 	derived2  []common.Address // + CREATE2 addresses of the contracts' own create2 actions
 	ids       map[*Action]int
 	initBlobs map[*Init][]byte
-	measuring bool           // pass 1: "exact" call sites request all gas
+	measuring bool               // pass 1: "exact" call sites request all gas
 	overrides map[*Action]uint64 // pass 2: call site -> requested gas
 	sites     map[siteKey]*Action
 	codes     [][]byte
@@ -194,6 +194,8 @@ func (cp *compiler) resolve(t Target, level int) common.Address {
 		return eoaAddr
 	case "origin":
 		return originAddr
+	case "pre":
+		return nativeAddr(normNative(t.I))
 	case "made":
 		d := cp.derived2
 		if level > 0 {
@@ -223,6 +225,16 @@ func (cp *compiler) pushGas(a *asm, act *Action, level int) {
 		a.push(0)
 	case "small":
 		a.push(uint64(act.GasN))
+	case "near":
+		// what the native contract requires for its input, +-2 (a value call adds the 2300 stipend on top)
+		g := int64(specNative(normNative(act.To.I), cp.nativeInput(act)).gas) + int64(act.GasN-2)
+		if act.Value != 0 && (act.Op == "call" || act.Op == "callcode") {
+			g -= 2300
+		}
+		if g < 1 {
+			g = 1
+		}
+		a.push(uint64(g))
 	case "exact":
 		if level > 0 {
 			a.push(uint64(4000 + 1000*act.GasN))
@@ -238,6 +250,14 @@ func (cp *compiler) pushGas(a *asm, act *Action, level int) {
 	default: // all
 		a.pushW(8, math.MaxUint64)
 	}
+}
+
+// nativeInput is the input vector a call action passes (nil unless the target is a native contract).
+func (cp *compiler) nativeInput(act *Action) []byte {
+	if act.To.K != "pre" {
+		return nil
+	}
+	return nativeVector(normNative(act.To.I), act.Vec)
 }
 
 func (cp *compiler) after(a *asm, bubble bool) {
@@ -296,10 +316,19 @@ func (cp *compiler) action(a *asm, act *Action, level, contract int) {
 	case "ctx":
 		a.op(vm.CALLER, vm.POP, vm.CALLVALUE, vm.POP, vm.ADDRESS, vm.POP)
 	case "call", "callcode", "delegatecall", "staticcall":
+		in := cp.nativeInput(act)
+		if len(in) > 0 {
+			// input of a native contract: copied from the code's data section to memory 0x80
+			l := a.data(in)
+			a.pushW(2, uint64(len(in)))
+			a.pushLabel(l)
+			a.push(0x80)
+			a.op(vm.CODECOPY)
+		}
 		a.push(0)
 		a.push(0)
-		a.push(0)
-		a.push(0)
+		a.push(uint64(len(in)))
+		a.push(0x80)
 		if act.Op == "call" || act.Op == "callcode" {
 			a.push(uint64(act.Value))
 		}
